@@ -217,13 +217,15 @@ class RF24:
 
     def open_tx_pipe(self, address: Union[bytes, bytearray]) -> None:
         """Open a data pipe for TX transmissions."""
-        if self._pipes[0][: len(address)] != address and self._aa & 1:  # type: ignore
-            for i, val in enumerate(address):
-                self._pipes[0][i] = val  # type: ignore[assignment, index]
-            self._reg_write_bytes(RX_ADDR_P0, address)
         for i, val in enumerate(address):
             self._tx_address[i] = val
         self._reg_write_bytes(TX_ADDRESS, address)
+        if self._pipes[0] != self._tx_address and self._aa & 1:
+            # pipe 0 has to match the complete TX address (not only the bytes given
+            # here) to receive the ACK packets
+            for i, val in enumerate(self._tx_address):
+                self._pipes[0][i] = val  # type: ignore[assignment, index]
+            self._reg_write_bytes(RX_ADDR_P0, self._tx_address)
         if self._aa & 1 and not self._config & 1 and not self._open_pipes & 1:
             # already in TX mode (otherwise `listen = False` does this): pipe 0 must be
             # open to receive the ACK packets
